@@ -314,6 +314,44 @@ func cookies(r *mc.Run) {
 	if !r.Mine() {
 		return
 	}
+	type sealed struct {
+		good, key []byte
+		sc        ntske.ServerCookie
+	}
+	var all []sealed
+	defer func() {
+		// what one cookie opened to stays what it is while other cookies (of other
+		// sessions, valid or not) are opened: overlapping sessions keep their own keys
+		for i, a := range all {
+			for j, b := range all {
+				for _, op := range []string{"valid", "wrong-key", "tampered"} {
+					var ea ntske.EncryptedServerCookie
+					if err := ea.Decode(a.good); err != nil {
+						continue
+					}
+					got, err := ea.Decrypt(a.key)
+					if err != nil {
+						continue
+					}
+					var eb ntske.EncryptedServerCookie
+					m, k := bytes.Clone(b.good), b.key
+					switch op {
+					case "wrong-key":
+						k = bytes.Repeat([]byte{0xee}, 32)
+					case "tampered":
+						m[len(m)-1] ^= 1
+					}
+					if eb.Decode(m) == nil {
+						eb.Decrypt(k)
+					}
+					r.Evals++
+					if got.Algo != a.sc.Algo || !bytes.Equal(got.S2C, a.sc.S2C) || !bytes.Equal(got.C2S, a.sc.C2S) {
+						r.Fail("cookie", "opened-cookie-changed-by-later-open", fmt.Sprintf("keys obtained from cookie %d changed when cookie %d (%s) was opened afterwards", i, j, op), in{Kind: "cookie-overlap", Level: i, Byte: j})
+					}
+				}
+			}
+		}
+	}()
 	for ki, kl := range [][2]int{{32, 32}, {32, 32}, {16, 16}} {
 		sealing := bytes.Repeat([]byte{byte(0x11 * (ki + 1))}, 32)
 		otherKey := bytes.Repeat([]byte{0xee}, 32)
@@ -326,6 +364,7 @@ func cookies(r *mc.Run) {
 			r.T.Fatal(err)
 		}
 		good := ec.Encode()
+		all = append(all, sealed{good, sealing, sc})
 		open := func(b []byte, key []byte) (ntske.ServerCookie, bool) {
 			var e ntske.EncryptedServerCookie
 			var out ntske.ServerCookie
@@ -454,6 +493,6 @@ func TestCheck(t *testing.T) {
 		}
 		r.Sample(in{Kind: "request", Level: 5, Byte: 100, Bit: 3})
 		r.Sample(in{Kind: "response-field", Level: 2, Byte: 86, Val: 0xffff})
-		r.Extra["rule"] = "requests of the project's encoder at pool levels 2..8 through the real IP listener, responses with 1..7 cookies through DecodePacket/ProcessResponse, three sealed cookies through Decode/Decrypt: every single-bit flip, every extension type/length and nonce/ciphertext length field over 8+3 values, every truncation, wrong key / direction / session, wrong and shortened unique identifier, session keys from the project's ExportKeys on both ends of a real TLS session with packets presented in the opposite direction, unauthenticated fields (unique identifier, cookie, placeholder, unknown, second authenticator) appended after the authenticator; distinct = distinct mutated packets"
+		r.Extra["rule"] = "requests of the project's encoder at pool levels 2..8 through the real IP listener, responses with 1..7 cookies through DecodePacket/ProcessResponse, three sealed cookies through Decode/Decrypt (and every ordered pair of them opened in overlap: the first result must survive the second open): every single-bit flip, every extension type/length and nonce/ciphertext length field over 8+3 values, every truncation, wrong key / direction / session, wrong and shortened unique identifier, session keys from the project's ExportKeys on both ends of a real TLS session with packets presented in the opposite direction, unauthenticated fields (unique identifier, cookie, placeholder, unknown, second authenticator) appended after the authenticator; distinct = distinct mutated packets"
 	})
 }
